@@ -33,17 +33,8 @@ Lemma dbpw_eqb_refl : forall a, dbpw_eqb a a = true.
 Proof. destruct a; cbn [dbpw_eqb]; rewrite ?N.eqb_refl, ?bytes_eqb_refl; reflexivity. Qed.
 
 (* ================================================================== Part A *)
-Lemma reload_ok : forall k, ktag k <> TAG_CRYPT_SHA512 -> reload k = Some k.
-Proof. intros k H. destruct k; try reflexivity. exfalso. apply H. reflexivity. Qed.
-
-Lemma reload_sha512 : forall h, reload (K_CRYPT_SHA512 h) = Some (K_CRYPT_SHA256 h).
-Proof. reflexivity. Qed.
-
-Lemma reload_total : forall k, exists k', reload k = Some k'.
-Proof. intros k. destruct k; eexists; reflexivity. Qed.
-
-Lemma reload_tag : forall k k', reload k = Some k' -> ktag k' = ktag_after_reload (ktag k).
-Proof. intros k k' H. destruct k; injection H as <-; reflexivity. Qed.
+Lemma reload_ok : forall k, reload k = Some k.
+Proof. destruct k; reflexivity. Qed.
 
 Lemma db_of_kdf_tag : forall k, dtag (db_of_kdf k) = ktag k.
 Proof. destruct k; reflexivity. Qed.
@@ -51,47 +42,37 @@ Proof. destruct k; reflexivity. Qed.
 Lemma db_of_kdf_inj : forall a b, db_of_kdf a = db_of_kdf b -> a = b.
 Proof. intros a b H. destruct a, b; cbn [db_of_kdf] in H; try discriminate; injection H; intros; subst; reflexivity. Qed.
 
-Lemma verify_stable : forall o k pw, ktag k <> TAG_CRYPT_SHA512 ->
-  option_map (fun k' => verify o k' pw) (reload k) = Some (verify o k pw).
-Proof. intros o k pw H. rewrite (reload_ok k H). reflexivity. Qed.
+Lemma verify_stable : forall o k pw k', reload k = Some k' -> verify o k' pw = verify o k pw.
+Proof. intros o k pw k' H. rewrite reload_ok in H. injection H as <-. reflexivity. Qed.
 
-(* what exactly happens in the excluded class: the reloaded password is checked by the
-   SHA256-crypt routine against a SHA512-crypt ("$6$...") string *)
-Lemma verify_sha512_after_reload : forall o h pw,
-  N.of_nat (length pw) <= PW_MAX_LENGTH_CHECK ->
-  option_map (fun k' => verify o k' pw) (reload (K_CRYPT_SHA512 h)) = Some (Some (o_sha256_check o h pw)) /\
-  verify o (K_CRYPT_SHA512 h) pw = Some (o_sha512_check o h pw).
-Proof.
-  intros o h pw Hl. unfold reload, verify. cbn [db_of_kdf kdf_of_db option_map].
-  assert (E : (PW_MAX_LENGTH_CHECK <? N.of_nat (length pw)) = false) by (apply N.ltb_ge; exact Hl).
-  rewrite E. split; reflexivity.
-Qed.
+(* load then store: the stored form is reproduced (so a backup of a restored database is equal) *)
+Lemma load_store : forall d, exists k, kdf_of_db d = Some k /\ db_of_kdf k = d /\ ktag k = dtag d.
+Proof. destruct d; eexists; repeat split; reflexivity. Qed.
 
-Definition full_statement_pw : Prop := forall k, reload k = Some k.
-Lemma pw_refuted : ~ full_statement_pw.
+(* ---- the code before the fix *)
+Lemma prefix_reload_sha512 : forall h, reload_prefix (K_CRYPT_SHA512 h) = Some (K_CRYPT_SHA256 h).
+Proof. reflexivity. Qed.
+Lemma prefix_reload_other : forall k, ktag k <> TAG_CRYPT_SHA512 -> reload_prefix k = Some k.
+Proof. intros k H. destruct k; try reflexivity. exfalso. apply H. reflexivity. Qed.
+Lemma prefix_pw_refuted : ~ (forall k, reload_prefix k = Some k).
 Proof. intros H. specialize (H (K_CRYPT_SHA512 [])). discriminate H. Qed.
-
-Definition full_statement_verify : Prop :=
-  forall o k pw k', reload k = Some k' -> verify o k' pw = verify o k pw.
-Lemma verify_refuted : ~ full_statement_verify.
+Lemma prefix_verify_refuted :
+  ~ (forall o k pw k', reload_prefix k = Some k' -> verify o k' pw = verify o k pw).
 Proof.
   intros H. specialize (H toy_oracle (K_CRYPT_SHA512 []) [] (K_CRYPT_SHA256 []) eq_refl).
   vm_compute in H. discriminate H.
 Qed.
-
-Lemma fixed_roundtrip : forall k, kdf_of_db_fixed (db_of_kdf k) = Some k.
-Proof. destruct k; reflexivity. Qed.
-Lemma fixed_store_roundtrip : forall d, option_map db_of_kdf (kdf_of_db_fixed d) = Some d.
-Proof. destruct d; reflexivity. Qed.
-
-(* load then store: the stored form is reproduced (so a backup of a restored database is equal) *)
-Lemma load_store : forall d, dtag d <> TAG_CRYPT_SHA512 ->
-  exists k, kdf_of_db d = Some k /\ db_of_kdf k = d /\ ktag k = dtag d.
+(* what exactly happened: the reloaded password was checked by the SHA256-crypt routine against
+   a SHA512-crypt ("$6$...") string *)
+Lemma prefix_verify_sha512 : forall o h pw,
+  N.of_nat (length pw) <= PW_MAX_LENGTH_CHECK ->
+  option_map (fun k' => verify o k' pw) (reload_prefix (K_CRYPT_SHA512 h)) = Some (Some (o_sha256_check o h pw)) /\
+  verify o (K_CRYPT_SHA512 h) pw = Some (o_sha512_check o h pw).
 Proof.
-  intros d H. destruct d; try (eexists; repeat split; reflexivity). exfalso. apply H. reflexivity.
+  intros o h pw Hl. unfold reload_prefix, verify. cbn [db_of_kdf kdf_of_db_prefix option_map].
+  assert (E : (PW_MAX_LENGTH_CHECK <? N.of_nat (length pw)) = false) by (apply N.ltb_ge; exact Hl).
+  rewrite E. split; reflexivity.
 Qed.
-Lemma load_total : forall d, exists k, kdf_of_db d = Some k.
-Proof. destruct d; eexists; reflexivity. Qed.
 
 (* ================================================================== Part B *)
 Lemma vskind_eqb_refl : forall k, vskind_eqb k k = true.
@@ -101,41 +82,54 @@ Proof. intros a b H. destruct a; destruct b; try discriminate H; reflexivity. Qe
 Lemma dbtag_eqb_eq : forall a b, dbtag_eqb a b = true -> a = b.
 Proof. intros a b H. destruct a; destruct b; try discriminate H; reflexivity. Qed.
 
-Lemma vs_reload_ok : forall k, k <> VK_JwsKeyRs256 -> k <> VK_Other -> vs_reload k = Some k.
-Proof. intros k H1 H2. destruct k; try reflexivity; contradiction. Qed.
-Lemma vs_reload_rs256 : vs_reload VK_JwsKeyRs256 = None.
-Proof. reflexivity. Qed.
+Lemma vs_reload_ok : forall k, k <> VK_Other -> vs_reload k = Some k.
+Proof. intros k H. destruct k; try reflexivity; contradiction. Qed.
 Lemma vs_reload_only_self : forall k k', vs_reload k = Some k' -> k' = k.
 Proof.
   intros k k' H. unfold vs_reload, vs_reload_with in H.
   destruct (dispatch (tag_of k)) as [p|]; [|discriminate].
   destruct (vskind_eqb p k) eqn:E; [|discriminate]. injection H as <-. apply vskind_eqb_eq. exact E.
 Qed.
-Definition full_statement_vs : Prop := forall k, k <> VK_Other -> vs_reload k = Some k.
-Lemma vs_refuted : ~ full_statement_vs.
-Proof. intros H. specialize (H VK_JwsKeyRs256). discriminate H. discriminate. Qed.
-Lemma vs_fixed : forall k, k <> VK_Other -> vs_reload_with dispatch_fixed k = Some k.
-Proof. intros k H. destruct k; try reflexivity. contradiction. Qed.
 Lemma tag_of_inj : forall a b, tag_of a = tag_of b -> a = b.
 Proof. intros a b H. destruct a; destruct b; try discriminate H; reflexivity. Qed.
-(* a stored variant is only ever handed to the loader of the type that writes it, except JR *)
-Lemma dispatch_sound : forall t k, dispatch t = Some k -> t = tag_of k \/ (t = T_JR /\ k = VK_JwsKeyEs256).
-Proof. intros t k H. destruct t; cbn [dispatch] in H; try discriminate H; injection H as <-; auto. Qed.
+(* a stored variant is only ever handed to the loader of the type that writes it *)
+Lemma dispatch_sound : forall t k, dispatch t = Some k -> t = tag_of k.
+Proof. intros t k H. destruct t; cbn [dispatch] in H; try discriminate H; injection H as <-; reflexivity. Qed.
 Lemma dispatch_refused : forall t, dispatch t = None <-> (t = T_PN \/ t = T_TE \/ t = T_EK \/ t = T_Other).
 Proof.
   intros t. split.
   - intros H. destruct t; cbn [dispatch] in H; try discriminate H; auto.
   - intros [->|[->|[->| ->]]]; reflexivity.
 Qed.
+(* ---- the code before the fix *)
+Lemma prefix_vs_rs256 : vs_reload_with dispatch_prefix VK_JwsKeyRs256 = None.
+Proof. reflexivity. Qed.
+Lemma prefix_vs_other : forall k, k <> VK_JwsKeyRs256 -> k <> VK_Other -> vs_reload_with dispatch_prefix k = Some k.
+Proof. intros k H1 H2. destruct k; try reflexivity; contradiction. Qed.
+Lemma prefix_vs_refuted : ~ (forall k, k <> VK_Other -> vs_reload_with dispatch_prefix k = Some k).
+Proof. intros H. specialize (H VK_JwsKeyRs256). discriminate H. discriminate. Qed.
 
-Lemma pw_tags_stable_spec : forall l, pw_tags_stable l = true <-> ~ In TAG_CRYPT_SHA512 l.
+(* ================================================================== Part D *)
+Lemma NS_pos : NS <> 0.
+Proof. discriminate. Qed.
+Lemma msg_reload_le : forall t, msg_time_reload t <= t /\ t < msg_time_reload t + NS.
 Proof.
-  intros l. unfold pw_tags_stable. rewrite forallb_forall. split.
-  - intros H Hin. specialize (H _ Hin). vm_compute in H. discriminate H.
-  - intros H t Ht. unfold ktag_after_reload. destruct (t =? TAG_CRYPT_SHA512) eqn:E.
-    + apply N.eqb_eq in E. subst. contradiction.
-    + apply N.eqb_refl.
+  intros t. unfold msg_time_reload, msg_time_load, msg_time_store.
+  pose proof (N.div_mod t NS NS_pos) as E. pose proof (N.mod_lt t NS NS_pos) as L.
+  set (q := t / NS) in *. set (r := t mod NS) in *. clearbody q r. unfold NS in *. lia.
 Qed.
+Lemma msg_reload_exact : forall t, msg_time_reload t = t <-> t mod NS = 0.
+Proof.
+  intros t. unfold msg_time_reload, msg_time_load, msg_time_store.
+  pose proof (N.div_mod t NS NS_pos) as E.
+  set (q := t / NS) in *. set (r := t mod NS) in *. clearbody q r. unfold NS in *. split; intros H; lia.
+Qed.
+Lemma msg_store_idem : forall t, msg_time_store (msg_time_reload t) = msg_time_store t.
+Proof.
+  intros t. unfold msg_time_reload, msg_time_load, msg_time_store. apply N.div_mul. exact NS_pos.
+Qed.
+Lemma msg_refuted : ~ (forall t, msg_time_reload t = t).
+Proof. intros H. specialize (H 1). vm_compute in H. discriminate H. Qed.
 
 (* ================================================================== Part C *)
 Lemma cid_eqb_refl : forall c, cid_eqb c c = true.
@@ -374,24 +368,28 @@ Proof. intros. cbn [repl_spec]. rewrite cid_eqb_refl, pairs_eqb_refl. reflexivit
 
 (* ================================================================== bridges *)
 Lemma bridge_pw : forall kt d kt2 d2 eq vb va,
-  agree (CPw kt d kt2 d2 eq vb va) = true -> kt <> TAG_CRYPT_SHA512 ->
-  pcheck_pw_struct kt d kt2 d2 eq = true.
+  agree (CPw kt d kt2 d2 eq vb va) = true -> pcheck_pw_struct kt d kt2 d2 eq = true.
 Proof.
-  intros kt d kt2 d2 eq vb va H Hk. cbn [agree] in H. apply andb_true_iff in H as [H1 H2].
+  intros kt d kt2 d2 eq vb va H. cbn [agree] in H. apply andb_true_iff in H as [H1 H2].
   apply N.eqb_eq in H1. subst kt.
-  destruct (load_store d Hk) as [k [E [E1 E2]]]. rewrite E in H2.
+  destruct (load_store d) as [k [E [E1 E2]]]. rewrite E in H2.
   apply andb_true_iff in H2 as [H2 H4]. apply andb_true_iff in H2 as [H2 H3].
   apply N.eqb_eq in H2. apply dbpw_eqb_eq in H3. rewrite E1 in H3. subst d2. rewrite E2 in H2. subst kt2.
   rewrite E2, N.eqb_refl in H4. apply eqb_prop in H4. subst eq.
   unfold pcheck_pw_struct. rewrite N.eqb_refl, dbpw_eqb_refl. reflexivity.
 Qed.
-Lemma bridge_load : forall d kt2 d2,
-  agree (CLoad d kt2 d2) = true -> dtag d <> TAG_CRYPT_SHA512 -> pcheck (CLoad d kt2 d2) = true.
+Lemma bridge_load : forall d kt2 d2, agree (CLoad d kt2 d2) = true -> pcheck (CLoad d kt2 d2) = true.
 Proof.
-  intros d kt2 d2 H Hk. cbn [agree] in H. destruct (load_store d Hk) as [k [E [E1 E2]]]. rewrite E in H.
+  intros d kt2 d2 H. cbn [agree] in H. destruct (load_store d) as [k [E [E1 E2]]]. rewrite E in H.
   apply andb_true_iff in H as [H1 H2]. apply N.eqb_eq in H1. apply dbpw_eqb_eq in H2.
   rewrite E1 in H2. subst d2. rewrite E2 in H1. subst kt2. cbn [pcheck].
   rewrite N.eqb_refl, dbpw_eqb_refl. reflexivity.
+Qed.
+Lemma bridge_msg : forall t t2, agree (CMsg t t2) = true -> known (CMsg t t2) = false -> pcheck (CMsg t t2) = true.
+Proof.
+  intros t t2 H Hk. cbn [agree] in H. apply N.eqb_eq in H. subst t2. cbn [known] in Hk.
+  apply negb_false_iff in Hk. apply N.eqb_eq in Hk. cbn [pcheck]. apply N.eqb_eq.
+  apply msg_reload_exact. exact Hk.
 Qed.
 Lemma opt_kind_eqb_eq : forall a b, opt_kind_eqb a b = true -> a = b.
 Proof.
@@ -406,13 +404,9 @@ Lemma bridge_vs : forall k pw tag res same restore obs,
 Proof.
   intros k pw tag res same restore obs H Ho Hk. cbn [agree] in H.
   apply andb_true_iff in H as [H H3]. apply andb_true_iff in H as [_ H2].
-  apply opt_kind_eqb_eq in H2.
-  assert (Hr : k <> VK_JwsKeyRs256) by (intros ->; discriminate Hk).
-  rewrite (vs_reload_ok k Hr Ho) in H2. subst res.
+  apply opt_kind_eqb_eq in H2. rewrite (vs_reload_ok k Ho) in H2. subst res.
   apply andb_true_iff in H3 as [H3 H4]. apply eqb_prop in H3. apply eqb_prop in H4.
-  split; [reflexivity|]. subst same restore.
-  destruct k; cbn [expect_equal expect_restore]; cbn [value_known] in Hk;
-    try (split; reflexivity);
-    first [ rewrite Hk; split; reflexivity
-          | apply negb_false_iff in Hk; rewrite Hk; split; reflexivity ].
+  split; [reflexivity|]. subst same restore. unfold expect_restore.
+  destruct k; cbn [expect_equal]; cbn [value_known] in Hk; try (split; reflexivity).
+  rewrite Hk. split; reflexivity.
 Qed.
